@@ -3,7 +3,7 @@
    Written from the repaired sources (DESIGN section 2); tied to the code by the
    correspondence runs of the C01 family.  No proofs here. *)
 From Coq Require Import ZArith String List Bool PrimFloat.
-From Bardolph Require Import Base.PyFloat Gen.Codes Time.TimeSpec Time.TimePattern
+From Bardolph Require Import Base.PyFloat Gen.Codes Time.TimeSpec Time.TimeCore
   Lang.Value Lang.Instr Lang.Loader Lang.Units0 Lang.World Lang.Regs Lang.Devices Lang.Builtins.
 Open Scope string_scope.
 Open Scope list_scope.
